@@ -8,6 +8,12 @@ from pathlib import Path
 import vf
 
 NATIVE = {
+    "C11": [
+        dict(name="c11_known_ep_identity", cmd="c11_ep", rustflags="", kind="exhaustive", tier="quick", fn="Game::can_declare_draw,Board::set_ep,Board::get_hash",
+             desc="replay of the recorded finding: after 1...d5 beside a PINNED white e-pawn the position repeats three times by the Laws, but its first occurrence is hashed with an en-passant flag and is not counted"),
+        dict(name="c11_witness_search", cmd="c11", rustflags="", kind="exhaustive", tier="quick", fn="Game::can_declare_draw",
+             desc="witness search (20 s, seeded random long games biased to reversible moves): can_declare_draw against a statement-level oracle (threefold by placement/side/rights/en-passant possibility over the whole game, or 100 reversible half-moves); NOT a proof — it supplies concrete histories for failing Verus obligations"),
+    ],
     "C15": [
         dict(name="c15_exhaustive_default", cmd="c15", rustflags="", kind="exhaustive", tier="quick", fn="get_rook_moves,get_bishop_moves",
              desc="complete enumeration (not deduction): the real lookups on EVERY subset of the relevant squares of every square (rook+bishop), each with the irrelevant squares empty, all set, and two seeded random fillings, against the ray walk"),
